@@ -5,6 +5,7 @@ mod pipe;
 mod pool;
 mod props;
 mod reflex;
+mod refparse;
 mod run;
 mod store;
 mod util;
